@@ -145,7 +145,7 @@ func (c *fctx) enum(out *expFile, scope, name, prefix string, opts []string) *j5
 		if !strings.HasPrefix(o, prefix) {
 			full = prefix + o
 		}
-		if i == 0 && strings.HasSuffix(o, "UNSPECIFIED") {
+		if i == 0 && strings.TrimPrefix(o, prefix) == "UNSPECIFIED" {
 			// the zero value may be declared explicitly (README: "explicitly included (as UNSPECIFIED)")
 			e.Values[0].Name = full
 			continue
